@@ -487,7 +487,7 @@ fn signature_expiration_time<B: BufRead>(mut i: B) -> Result<SubpacketData> {
 /// Parse an Exportable Certification subpacket.
 /// Ref: https://www.rfc-editor.org/rfc/rfc9580.html#name-exportable-certification
 fn exportable_certification<B: BufRead>(mut i: B) -> Result<SubpacketData> {
-    let is_exportable = i.read_u8()? == 1;
+    let is_exportable = boolean(i.read_u8()?)?;
 
     Ok(SubpacketData::ExportableCertification(is_exportable))
 }
@@ -495,7 +495,7 @@ fn exportable_certification<B: BufRead>(mut i: B) -> Result<SubpacketData> {
 /// Parse a Revocable subpacket
 /// Ref: https://www.rfc-editor.org/rfc/rfc9580.html#name-revocable
 fn revocable<B: BufRead>(mut i: B) -> Result<SubpacketData> {
-    let is_revocable = i.read_u8()? == 1;
+    let is_revocable = boolean(i.read_u8()?)?;
 
     Ok(SubpacketData::Revocable(is_revocable))
 }
@@ -570,7 +570,7 @@ fn preferred_key_server<B: BufRead>(mut i: B) -> Result<SubpacketData> {
 /// Parse a Primary User ID subpacket
 /// Ref: https://www.rfc-editor.org/rfc/rfc9580.html#name-primary-user-id
 fn primary_userid<B: BufRead>(mut i: B) -> Result<SubpacketData> {
-    let is_primary = i.read_u8()? == 1;
+    let is_primary = boolean(i.read_u8()?)?;
 
     Ok(SubpacketData::IsPrimary(is_primary))
 }
@@ -651,6 +651,19 @@ fn embedded_sig<B: BufRead>(
     let sig = Signature::try_from_reader_nested(header, signature_bytes.reader(), depth + 1)?;
 
     Ok(SubpacketData::EmbeddedSignature(Box::new(sig)))
+}
+
+/// Parse the boolean octet of a subpacket (1 = true, 0 = false).
+///
+/// Other values are rejected: the parsed form is re-serialized as 0/1 when the signature is
+/// hashed, so accepting them would verify a signature over bytes that differ from the ones found
+/// in the packet.
+fn boolean(value: u8) -> Result<bool> {
+    match value {
+        0 => Ok(false),
+        1 => Ok(true),
+        _ => bail!("invalid boolean subpacket value {}", value),
+    }
 }
 
 /// Parse an Issuer Fingerprint subpacket
